@@ -5,8 +5,8 @@ from pyvc import terms as t
 from pyvc.values import *  # noqa
 from pyvc import ghost
 
-ROUNDTRIP = ['Padded', 'Aligned', 'FixedSized', 'Prefixed', 'Const', 'Flag', 'Bytes', 'GreedyBytes', 'BytesInteger', 'BitsInteger']
-SIZED = ['Padded', 'Aligned', 'FixedSized', 'Prefixed', 'Const', 'Flag', 'Bytes', 'BytesInteger', 'BitsInteger', 'FormatField']
+ROUNDTRIP = ['Padded', 'Aligned', 'FixedSized', 'Prefixed', 'Const', 'Flag', 'Bytes', 'GreedyBytes', 'BytesInteger', 'BitsInteger', 'Default', 'IfThenElse']
+SIZED = ['Padded', 'Aligned', 'FixedSized', 'Prefixed', 'Const', 'Flag', 'Bytes', 'BytesInteger', 'BitsInteger', 'FormatField', 'IfThenElse', 'Default']
 CANONICAL = []
 
 GREEDY = {'GreedyBytes'}
